@@ -24,7 +24,8 @@ func init() {
 		Explanation: "Decides the structural part of position/fix plumbing (narrow): analysis.Diagnostic values are built only in report.Report (plus one listed site), with Pos and End taken from one getRange call, and getRange/ shortRange derive start and end from the same node (R16.1); every analysis.TextEdit built in the module takes Pos and End from the same ranger value (or End = Pos + a length) (R16.2); " +
 			"the runner converts all six token.Pos values of a diagnostic (diagnostic, related information, text edits; start and end) with report.DisplayPosition and the package's own file set, each target field from its matching source field (R16.3); suggested fixes are forwarded unchanged from the options to the diagnostic (R16.4). " +
 			"It does NOT decide that edits parse, type-check or preserve behaviour, that manually built edit.Range{a, b} pairs are ordered and lie in one file, or anything about the replacement text." +
-			" Also decided: the functions that render syntax with go/format hand the printer's output on verbatim (no line folding, trimming or replacing of text that is spliced into fixes).",
+			" Also decided: the functions that render syntax with go/format hand the printer's output on verbatim (no line folding, trimming or replacing of text that is spliced into fixes)." +
+			" Also decided: code.MayHaveSideEffects never answers 'no' on a path that skipped an operand its clause examines elsewhere; astutil.Equal pairs every part of a with the same part of b and compares every child that holds syntax (the gate and the equality used by the rewrites that merge or duplicate expressions).",
 		RuleText:    "who-may-construct / who-may-call rules over the whole module; value-origin pairing of Pos/End on SSA",
 		Assumptions: []string{"for an ast.Node n, n.Pos() <= n.End() and both lie in n's file"},
 		Run:         runC16,
